@@ -15,7 +15,7 @@ def _run_prime(args):
     defs = defs_for_p(p) if callable(defs_for_p) else defs_for_p[p]
     name, text, cl = wrapper(module, defs)
     cfg = "SPECIFICATION Spec\nCONSTANTS\n" + cl + f"\n  P = {p}\n" + "".join(f"INVARIANT {i}\n" for i in invariants) + extra
-    r = run_tlc(name, cfg, spec_dirs, extra_files={name + ".tla": text}, workers=2, timeout=3000)
+    r = run_tlc(name, cfg, spec_dirs, extra_files={name + ".tla": text}, workers=2, timeout=3000, jvm_opts=["-Xmx2g"])
     return {"p": p, "printed": r.printed, "violated": r.violated, "generated": r.generated, "distinct": r.distinct,
             "wall": r.wall, "depth": r.depth, "tail": r.stdout[-1500:] if r.violated else ""}
 
